@@ -58,7 +58,7 @@ WALKS = {
                 ["--runs", 25, "--steps", 8, "--origins", 1, "--maxreq", 12, "--h2prob", "0.0", "--tick", "--aging", "--cancelw", 0]],
         "C05": [["--runs", 40, "--steps", 40, "--origins", 1, "--maxreq", 6, "--h2prob", "0.2", "--tick", "--closew", 3],
                 ["--runs", 25, "--steps", 8, "--origins", 1, "--maxreq", 12, "--h2prob", "0.0", "--tick", "--aging", "--cancelw", 0]],
-        "C06": [["--runs", 150, "--steps", 50, "--origins", 11, "--maxreq", 12, "--cancelw", 1]],
+        "C06": [["--runs", 150, "--steps", 50, "--origins", 13, "--maxreq", 14, "--cancelw", 1]],
         "C14": [["--runs", 400, "--steps", 40, "--origins", 1, "--maxreq", 6, "--h2prob", "0.4"]],
         "C15": [["--runs", 300, "--steps", 50, "--origins", 2, "--maxreq", 8, "--h2prob", "0.1", "--cancelw", 1]],
     },
